@@ -372,6 +372,14 @@ func runGCLife(c *engine.Ctx, lc gcLife) {
 			return
 		}
 		id := ids[rng.Intn(len(ids))]
+		if rng.Intn(3) == 0 {
+			// a record the application has not tagged with a node ID (what registration leaves behind): it belongs
+			// to no node ID
+			ents = append(ents, &ent{n: er.Node, nodeID: "", present: true})
+			trace = append(trace, fmt.Sprintf("add #%d without a node ID", len(ents)-1))
+			r.Count("lifecycle_records_without_a_node_id", 1)
+			return
+		}
 		ni, err := types.LoadNodeInformation(s.Ctx, s.Inner, er.Node.K.KeyID, s.StoreOpts()...)
 		if err != nil {
 			r.Broken("gencerts lifecycle load: " + err.Error())
@@ -426,7 +434,7 @@ func runGCLife(c *engine.Ctx, lc gcLife) {
 			case 1:
 				nodeID = ids[rng.Intn(len(ids))]
 			default:
-				if e != nil {
+				if e != nil && e.nodeID != "" {
 					nodeID = e.nodeID
 				} else {
 					nodeID = ids[rng.Intn(len(ids))]
